@@ -15,8 +15,8 @@ open XzVerif XzVerif.Vli XzVerif.Container XzVerif.XzDecode
 
 /-- The payload contract for the chain `fs`: whatever `encPayload` writes for `x`, the raw decoder for the chain as it
     is stored in the Block Header gives `x` back, stops by itself at the end of the Compressed Data (it does not need to
-    be told the size: LZMA2 end marker / LZMA1 end marker) and ignores what follows.  Props/C01.lean proves this for the
-    LZMA1 models and, chunk by chunk, for LZMA2. -/
+    be told the size: LZMA2 end marker / LZMA1 end marker) and ignores what follows.  Proved for the concrete
+    LZMA2 / delta / BCJ models in Props/C01EndToEnd.lean (`payload_contract_std_on`, `payload_contract_std`). -/
 def PayloadContract (DE : Env) (E : EncEnv) (fs : List FilterOpts) : Prop :=
   ∀ raws, Forall2 FilterMatches fs raws → ∀ (x t : List UInt8) (c : Nat), x.length ≤ c →
     DE.payload raws (E.encPayload fs x ++ t) c = ⟨.streamEnd, x, (E.encPayload fs x).length⟩
